@@ -489,6 +489,165 @@ def numpy_check(run, rng):
     run.notes["mini_numpy_cases"] = len(items)
 
 
+# ------------------------------------------------------------------ declared construction: Class(...).controlled_by(...)
+import math
+
+DECL_ANGLES = [0.0, math.pi / 2, math.pi]
+SCALES = [1.0, math.sqrt(2.0), 2.0, 2.0 * math.sqrt(2.0)]
+
+
+def scaled_int_matrix(M):
+    """smallest s in {1, sqrt2, 2, 2sqrt2} with s*M Gaussian-integer; (s, integer matrix) or None"""
+    M = np.asarray(M, dtype=complex)
+    for sc in SCALES:
+        S = M * sc
+        R = np.round(S.real) + 1j * np.round(S.imag)
+        if np.abs(S - R).max() < 1e-9:
+            return sc, [[[int(round(x.real)), int(round(x.imag))] for x in row] for row in R]
+    return None
+
+
+def decl_params(rng, name, nq, ps, one):
+    from lib import qtrace
+    for attempt in range(30):
+        params = [one() for _ in ps] if attempt < 15 else [rng.choice([0.0, math.pi / 2]) for _ in ps]
+        try:
+            qtrace.make_gate(name, list(range(nq)), params)
+            return params
+        except ValueError:
+            continue
+    return [0.0] * len(ps)
+
+
+def decl_run(case):
+    """executes Class(qubits, params).controlled_by(controls) through a circuit; the reference is built from the
+    DECLARATION: controls, the base gate's qubits and the matrix of a separately constructed BASE gate (the class
+    tables of c01_tables prove that matrix equal to the documented one).  Returns None when the class refuses
+    controlled_by because it has built-in controls."""
+    from qibo import Circuit
+    from lib import qtrace
+    n = case["n"]
+    base = qtrace.make_gate(case["class"], case["qubits"], case["params"])
+    if base.control_qubits:
+        return None
+    g = qtrace.make_gate(case["class"], case["qubits"], case["params"]).controlled_by(*case["controls"])
+    c = Circuit(n)
+    c.add(g)
+    psi = np.array([complex(a, b) for a, b in case["init"]], dtype=complex)
+    return {"base_matrix": np.asarray(base.matrix(backend())), "base_qubits": [int(q) for q in base.qubits],
+            "state": np.asarray(c(initial_state=psi.copy()).state()), "unitary": np.asarray(c.unitary(backend())),
+            "returned_class": type(g).__name__}
+
+
+def decl_exact_term(case, r):
+    """rows whose declared controls are all 1 carry the factor s of the scaled base matrix, the others are identity rows"""
+    sm = scaled_int_matrix(r["base_matrix"])
+    if sm is None:
+        return None
+    sc, S = sm
+    n = case["n"]
+    on = [all((i >> (n - 1 - q)) & 1 for q in case["controls"]) for i in range(2 ** n)]
+    fac = np.array([sc if o else 1.0 for o in on])
+    st, un = r["state"] * fac, r["unitary"] * fac[:, None]
+    for a in (st, un):
+        if np.abs(a - (np.round(a.real) + 1j * np.round(a.imag))).max() > 1e-6 * max(1.0, np.abs(a).max()):
+            return "off"
+    zi = lambda a: [[int(round(x.real)), int(round(x.imag))] for x in a]
+    its = f"([(({cnats(sorted(case['controls']))}, {cnats(r['base_qubits'])}), {cmat(S)})] : list (gapp Zi))"
+    return (f"(let n := {n}%nat in let its := {its} in\n"
+            f"   [veqb (mvmul Ziops (circ_mat Ziops n its) {cvec(case['init'])}) {cvec(zi(st))};\n"
+            f"    meqb (circ_mat Ziops n its) {cmat([zi(row) for row in un])}])")
+
+
+def decl_float_bad(case, r):
+    """TEST level: the same declaration through the generic Unitary(...).controlled_by(...) path (C01 index theorems)"""
+    from qibo import Circuit, gates
+    n = case["n"]
+    c = Circuit(n)
+    c.add(gates.Unitary(r["base_matrix"], *r["base_qubits"], check_unitary=False).controlled_by(*case["controls"]))
+    psi = np.array([complex(a, b) for a, b in case["init"]], dtype=complex)
+    d = max(float(np.abs(np.asarray(c(initial_state=psi.copy()).state()) - r["state"]).max()),
+            float(np.abs(np.asarray(c.unitary(backend())) - r["unitary"]).max()))
+    return d if d > 1e-9 * max(1.0, float(np.abs(psi).max())) else None
+
+
+def declared_check(run, rng):
+    """every library class x 1..2 extra controls x placements: Class(...).controlled_by(...) against the operator of the
+    declaration, cembed n controls qubits (base matrix)"""
+    from lib import qtrace
+    cat = qtrace.catalogue()
+    reps = 1 if run.tier != "thorough" else 3
+    cases = []
+    for name, nq, ps in cat:
+        for nctrl in (1, 2):
+            for rep in range(reps):
+                n = nq + nctrl + rng.randint(0, 1)
+                if rep == 0:      # non-ascending: targets descending from the top, controls below them, also descending
+                    perm = list(range(n))[::-1]
+                else:
+                    perm = rng.sample(range(n), n)
+                qs, cs = perm[:nq], perm[nq:nq + nctrl]
+                for mode in ("exact", "float"):
+                    one = (lambda: rng.choice(DECL_ANGLES)) if mode == "exact" else (lambda: round(rng.uniform(-3.0, 3.0), 4))
+                    cases.append({"class": name, "qubits": qs, "controls": cs, "n": n, "mode": mode,
+                                  "params": decl_params(rng, name, nq, ps, one), "init": rand_state(rng, n)})
+    terms, metas, nfloat, nskip = [], [], 0, 0
+    for case in cases:
+        key = f"declared:{case['class']}:c{len(case['controls'])}"
+        try:
+            r = decl_run(case)
+        except Exception as e:
+            run.find(key + ":raises", f"{case['class']}(...).controlled_by({case['controls']}) raised {type(e).__name__}: {e}",
+                     {"case": case, "mechanism": "declared"})
+            continue
+        if r is None:
+            nskip += 1
+            continue
+        run.case(["declared", case], nontrivial=True)
+        term = decl_exact_term(case, r) if case["mode"] == "exact" else None
+        if term == "off":
+            run.find(key, f"{case['class']}(...).controlled_by(...): result is off the exact lattice of the declared operator "
+                     f"(returned object: {r['returned_class']})", {"case": case, "mechanism": "declared"})
+        elif term is not None:
+            terms.append(term)
+            metas.append((case, key, r["returned_class"]))
+        else:
+            nfloat += 1
+            bad = decl_float_bad(case, r)
+            if bad is not None:
+                run.find(key + ":float", f"{case['class']}(...).controlled_by(...) differs from the declared controlled operator "
+                         f"(max abs diff {bad:.3g}; returned object: {r['returned_class']})", {"case": case, "mechanism": "declared"})
+    res = eval_cases(run, "C01_declared", terms, 2, chunk=40)
+    seen = set()
+    for (case, key, cls), bs in zip(metas, res):
+        if bs is None:
+            run.find("coq-eval:" + key, "Coq evaluation failed", {"case": case}, concrete=False)
+        elif not all(bs) and key not in seen:
+            seen.add(key)
+            what = [l for l, b in zip(["state", "unitary"], bs) if not b]
+            run.find(key, f"{case['class']}{tuple(case['qubits'])}.controlled_by{tuple(case['controls'])} does not act as the declared "
+                     f"operator 'base matrix where every control is 1' ({', '.join(what)}; returned object: {cls})",
+                     {"case": case, "mechanism": "declared"})
+    run.notes["declared_construction"] = {"exact": len(terms), "float_test": nfloat, "builtin_controls_skipped": nskip,
+                                          "classes": len(cat)}
+
+
+def declared_replay(run, data):
+    case = data["replay"]["case"]
+    r = decl_run(case)
+    term = decl_exact_term(case, r) if case.get("mode") == "exact" else None
+    if term == "off":
+        bad = True
+    elif term is not None:
+        bs = eval_cases(run, "C01_replay", [term], 2)[0]
+        bad = bs is None or not all(bs)
+    else:
+        bad = decl_float_bad(case, r) is not None
+    if bad:
+        run.find(data["key"], data.get("what", ""), data["replay"])
+    return run.finish(rule="replay of one recorded case")
+
+
 # ------------------------------------------------------------------ malformed stream
 def malformed_cases(rng):
     M2, M4 = rand_matrix(rng, 2, 2), rand_matrix(rng, 4, 2)
@@ -689,6 +848,7 @@ def main(run):
           ["model_state", "thmspec_state", "model_unitary", "thmspec_unitary", "gate_ok"], shrink_sv(run))
     malformed_check(run, rng)
     fused_check(run, rng)
+    declared_check(run, rng)
     from harness import c01_tables
     c01_tables.run_tables(run, rng)
     from harness import c01_qulacs
@@ -696,7 +856,9 @@ def main(run):
     return run.finish(level="proof", rule=(
         "gate tables: one obligation per gate class of gates.py (traced matrix = documented matrix of Spec/GateSpec.v for all "
         "parameters, unitarity for all parameters, constructor argument roles); qulacs backend against the numpy backend on "
-        "generated circuits (test level, tolerance, labelled); index part: "
+        "generated circuits (test level, tolerance, labelled); declared construction: every class x 1..2 extra controls x "
+        "placements, Class(...).controlled_by(...) against cembed n controls qubits (base matrix) exactly at multiples of pi/2 "
+        "and at test level for random angles; index part: "
         "random circuits n in 1..5, depth 1..6, Unitary gates with Gaussian-integer matrices on random ordered target tuples "
         "(arity 1..3) with 0..n-k controls given in random order, plus exact named gates; depth-1 sweep over all "
         "(ordered targets, control subset) placements (quick: all n<=3 + sample, thorough: all n<=5 arity<=3); "
@@ -707,6 +869,8 @@ def replay(run, data):
     import qibo
     qibo.set_backend("numpy")
     rp = data.get("replay", {})
+    if rp.get("mechanism") == "declared":
+        return declared_replay(run, data)
     if rp.get("mechanism") == "fused" or data.get("key", "").startswith("unitary_skips_fused"):
         case = rp["case"]
         c = build_circuit(case["n"], case["gates"])
